@@ -34,15 +34,15 @@ MUSIG_RULE = ("one run = one seeded Plan: signer count, key multiset, tweaks, no
 
 CHECKS = {
     "C01": {
-        "worlds": [{"name": "sigsvc", "variants": {"quick": ["ship", "asan"], "thorough": ["ship", "asan", "alt"]},
+        "worlds": [{"name": "sigsvc", "variants": {"quick": ["ship", "asan", "alt"], "thorough": ["ship", "asan", "alt"]},
                     "runs": {"quick": 48, "thorough": 4000}, "secondary_share": 0.25}],
-        "rule": "fault enumeration at the nonce-callback seam: every run covers the complete table 120 outcome sequences (<= 3 retrying outcomes {zero nonce, nonce >= n, nonce forcing s = 0} "
-                "then {pass-through returning 1, pass-through returning another non-zero value, return 0}) x 4 key classes {valid, 0, n, 2^256-1} x {ecdsa_sign, ecdsa_sign_recoverable} "
-                "x 3 context kinds = 2880 cells; keys, messages (classes incl. >= n), extra data vary with the seed; evaluations = executed cells (all runs); non-trivial = the cell contains at least one injected fault (callback outcome other than plain pass-through, or an invalid key); distinct = distinct cell identity (key class, entry point, context kind, outcome sequence), counted over the run set",
+        "rule": "fault enumeration at the nonce-callback seam: every run covers the complete table 160 outcome sequences (<= 3 retrying outcomes {zero nonce, nonce >= n, nonce forcing s = 0} "
+                "then {pass-through returning 1, pass-through returning another non-zero value, return 0, the caller's own nonce with the message chosen so that the raw s lies on a boundary of the low-S rule}) x 4 key classes {valid, 0, n, 2^256-1} x {ecdsa_sign, ecdsa_sign_recoverable} "
+                "x 3 context kinds = 3840 cells; keys, messages (classes incl. >= n), extra data vary with the seed; evaluations = executed cells (all runs); non-trivial = the cell contains at least one injected fault (callback outcome other than plain pass-through, or an invalid key); distinct = distinct cell identity (key class, entry point, context kind, outcome sequence), counted over the run set",
         "evaluations_probe": "cells", "exhaustive_table": True, "distinct_from_cover": "fcell",
         "components": COMPONENTS,
         "assumptions": ["only the failure/retry clause of C01 is decided; verification exactness and RFC 6979 conformance over all inputs are input-space and not claimed",
-                        "every seventh cell additionally compares the signature bytes with the model's RFC 6979 + ECDSA (oracle strengthening, not a conformance claim)"],
+                        "every seventh cell, and every cell that ends with the caller's own nonce, additionally compares the signature bytes and recovery id with the model's RFC 6979 + ECDSA (oracle strengthening, not a conformance claim)"],
     },
     "C07": {
         "worlds": [{"name": "store", "variants": {"quick": ["asan", "ship"], "thorough": ["asan", "ship", "alt"]},
